@@ -153,6 +153,13 @@ class PyIter:
             i = (end - 1 - p[3]) if p[4] else (start + p[3])
             p[3] += 1
             return Ref(ref.frame, ref.local, list(ref.proj) + [{"const_index": i}])
+        if k == "chunks":           # [array Ref, start, end, size, exact]
+            ref, start, end, size, exact = p
+            if start >= end or (exact and end - start < size):
+                raise StopIteration
+            hi = min(start + size, end)
+            p[1] = hi
+            return Slice(ref, start, hi)
         if k == "values":           # [list, pos]
             if p[1] >= len(p[0]):
                 raise StopIteration
@@ -1099,7 +1106,132 @@ class Interp:
             return PyIter("range", [x.fields[0], None])
         return None
 
+    def slice_of(self, v):
+        """(array Ref, start, end) of a slice / array-reference value, or None"""
+        x = v
+        for _ in range(3):
+            if isinstance(x, Slice):
+                return x.ref, x.start, x.end
+            if isinstance(x, Ref):
+                y = self.project(x.frame, x.frame.locals.get(x.local), x.proj)
+                if isinstance(y, Agg) and y.kind == "array":
+                    return x, 0, len(y.fields)
+                x = y
+            else:
+                break
+        return None
+
+    def slice_call(self, name, args, fargs, fr, t):
+        """std slice / byte-array functions on values the interpreter holds exactly"""
+        last = name.split("::")[-1]
+        if name in ("common_traits::Sequence::is_empty", "common_traits::Sequence::len") and args and self.slice_of(args[0]) is not None:
+            ref, start, end = self.slice_of(args[0])
+            if last == "len":
+                return AI("usize", end - start, end - start)
+            return AI("bool", int(end == start), int(end == start))
+        if name.startswith("core::slice::<impl [T]>::"):
+            sl = self.slice_of(args[0]) if args else None
+            if sl is None:
+                return NotImplemented
+            ref, start, end = sl
+            if last in ("chunks_exact", "chunks_exact_mut", "chunks", "chunks_mut"):
+                k = args[1].const() if isinstance(args[1], AI) else None
+                if k is None:
+                    raise Undecided("chunk size")
+                if k == 0:
+                    raise Panic("chunk size 0")
+                return PyIter("chunks", [ref, start, end, k, last.startswith("chunks_exact")])
+            if last in ("split_at", "split_at_mut"):
+                m = args[1].const() if isinstance(args[1], AI) else None
+                if m is None:
+                    raise Undecided("split point")
+                if m > end - start:
+                    raise Panic("split_at beyond the end")
+                return Agg("tuple", None, None, None, [Slice(ref, start, start + m), Slice(ref, start + m, end)])
+            if last == "copy_from_slice":
+                src = self.slice_of(args[1])
+                if src is None:
+                    return NotImplemented
+                sref, s0, s1 = src
+                if s1 - s0 != end - start:
+                    raise Panic("copy_from_slice: source and destination lengths differ")
+                sarr = self.project(sref.frame, sref.frame.locals.get(sref.local), sref.proj)
+                darr = self.project(ref.frame, ref.frame.locals.get(ref.local), ref.proj)
+                vals = list(sarr.fields[s0:s1])
+                for i, v in enumerate(vals):
+                    darr.fields[start + i] = v
+                return UNIT
+            if last == "is_empty":
+                return AI("bool", int(end == start), int(end == start))
+            if last in ("first", "last"):
+                if end == start:
+                    return mk_variant("std::option::Option", "None", [])
+                i = start if last == "first" else end - 1
+                return mk_variant("std::option::Option", "Some", [Ref(ref.frame, ref.local, list(ref.proj) + [{"const_index": i}])])
+            return NotImplemented
+        m = re.match(r"std::slice::ChunksExact(Mut)?::<'a, T>::(remainder|into_remainder)$", name)
+        if m:
+            it_ = self.as_iter(args[0])
+            if it_ is not None and it_.kind == "chunks":
+                ref, start, end, k, exact = it_.parts
+                rs = start + ((end - start) // k) * k
+                return Slice(ref, rs, end)
+            return NotImplemented
+        m = re.match(r"core::num::<impl (u\d+|usize)>::(from|to)_(be|le|ne)_bytes$", name)
+        if m:
+            ty, dirn, order = m.group(1), m.group(2), m.group(3)
+            nb = TY[ty][0] // 8
+            if dirn == "from":
+                arr = args[0]
+                if isinstance(arr, Ref):
+                    arr = self.project(arr.frame, arr.frame.locals.get(arr.local), arr.proj)
+                if not (isinstance(arr, Agg) and arr.kind == "array" and len(arr.fields) == nb and all(isinstance(b, AI) and b.const() is not None for b in arr.fields)):
+                    raise Unsupported("%s of %r" % (name, arr))
+                bs = [b.const() for b in arr.fields]
+                if order in ("le", "ne"):
+                    bs = bs[::-1]
+                v = 0
+                for b in bs:
+                    v = (v << 8) | b
+                return AI(ty, v, v)
+            x = args[0]
+            if not (isinstance(x, AI) and x.const() is not None):
+                raise Unsupported("%s of a non-constant" % name)
+            bs = [(x.const() >> (8 * i)) & 0xFF for i in range(nb)]
+            if order == "be":
+                bs = bs[::-1]
+            return Agg("array", None, None, None, [AI("u8", b, b) for b in bs])
+        if name in ("std::convert::TryInto::try_into", "std::convert::TryFrom::try_from") and args:
+            sl = self.slice_of(args[0])
+            dst = " ".join(str(a) for a in fargs)
+            mm = re.search(r"\[\w+; (\d+)\]", dst)
+            if sl is not None and mm:
+                ref, start, end = sl
+                n = int(mm.group(1))
+                if end - start != n:
+                    return mk_variant("std::result::Result", "Err", [Opaque("TryFromSliceError")])
+                arr = self.project(ref.frame, ref.frame.locals.get(ref.local), ref.proj)
+                return mk_variant("std::result::Result", "Ok", [Agg("array", None, None, None, list(arr.fields[start:end]))])
+        if name in ("std::ops::IndexMut::index_mut", "std::ops::Index::index") and len(args) == 2 and isinstance(args[1], Agg) and args[1].name and \
+                args[1].name.split("::")[-1] in ("RangeFrom", "Range", "RangeTo", "RangeFull"):
+            sl = self.slice_of(args[0])
+            if sl is not None:
+                ref, start, end = sl
+                nm = args[1].name.split("::")[-1]
+                f = args[1].fields
+                lo = f[0].const() if nm in ("RangeFrom", "Range") else 0
+                hi = f[1].const() if nm == "Range" else f[0].const() if nm == "RangeTo" else end - start
+                if lo is None or hi is None:
+                    raise Undecided("slice bounds not constant")
+                if not 0 <= lo <= hi <= end - start:
+                    raise Panic("slice index out of range")
+                return Slice(ref, start + lo, start + hi)
+        return NotImplemented
+
     def iter_call(self, name, args, fargs, fr, t):
+        r = self.slice_call(name, args, fargs, fr, t)
+        if r is not NotImplemented:
+            return r
         depth = 1
         last = name.split("::")[-1]
         if name in ("core::slice::<impl [T]>::iter", "core::slice::<impl [T]>::iter_mut") or re.match(r"core::array::<impl \[T; N\]>::(iter|iter_mut)$", name):
@@ -1228,6 +1360,8 @@ class Interp:
     # ---- std / core contracts ---------------------------------------------------------------------
     def std_call(self, name, args, fargs, fr, t):
         last = name.split("::")[-1]
+        if re.match(r"core::num::<impl \w+>::(from|to)_(be|le|ne)_bytes$", name):
+            return self.slice_call(name, args, fargs, fr, t)
         m = re.match(r"core::num::<impl (\w+)>::(\w+)$", name)
         if m:
             ty, fn = m.group(1), m.group(2)
